@@ -210,6 +210,9 @@ func c09GenSet(r *Rng, id int) c09Set {
 			`<p :title="shout(user.name)" :class="{on: user.admin, off: !user.admin}">x</p>`,
 			`<template #foot><i>foot {{ title }}</i></template>`,
 			`<p>{{ len(items) }} {{ items[0].name }} {{ user.profile.zip + 1 }}</p>`,
+			// elements whose evaluation writes attributes; the condition and the values differ between calls
+			// that bring their own data and calls on the shared data
+			toggleElems("counter > 7", "user.name", "user.name", "items"),
 		}
 		for i := range feats {
 			if r.Intn(3) != 0 {
